@@ -208,9 +208,13 @@ class Env:
         self._loads_memo = {}  # type: Dict[str, Any]
         self._dump_memo = {}  # type: Dict[int, Tuple[Any, str]]
         self.uuid_shim = _UuidShim()
-        self._saved = {"pickle": run.pickle, "uuid": run.uuid, "parse": run.parse, "intermediate": run.intermediate}
+        self._saved = {"pickle": run.pickle, "parse": run.parse, "intermediate": run.intermediate}
         run.pickle = fssched.PickleShim(lambda: self.sched, loads=self.loads)  # type: ignore
-        run.uuid = self.uuid_shim  # type: ignore
+        # the temporary name is made deterministic when (and only when) the module draws it from ``uuid``;
+        # an implementation that names the temporary file differently is simply run as it is
+        if hasattr(run, "uuid"):
+            self._saved["uuid"] = run.uuid
+            run.uuid = self.uuid_shim  # type: ignore
         run.parse = ParseShim()  # type: ignore
         run.intermediate = IntermediateShim()  # type: ignore
         self.hooks = fssched.Hooks(str(self.base))
